@@ -33,7 +33,7 @@ ASSUMPTIONS = [
 
 CAT_E = ("f", "h")
 NUM_E = ("x", "z", "scale(x)", "poly(x, 2)")
-GFACTORS = ("g", "s", "C(k)", (":", ("var", "g"), ("var", "s")), ("+", ("var", "g"), ("var", "s")),
+GFACTORS = ("g", "s", "C(k)", "k", (":", ("var", "g"), ("var", "s")), ("+", ("var", "g"), ("var", "s")),
             ("/", ("var", "g"), ("var", "s")), (":", ("var", "s"), ("var", "g")))
 
 
@@ -50,7 +50,7 @@ def cells_of(factor, frame):
     for a in factor:
         vals = frame[rc.atom_base(a)].tolist()
         col = frame[rc.atom_base(a)]
-        if hasattr(col.dtype, "ordered") and col.dtype.ordered and a in ("g", "s", "f", "h"):
+        if hasattr(col.dtype, "ordered") and col.dtype.ordered and a in ("g", "s", "f", "h", "k"):
             lv = list(col.dtype.categories)
         else:
             lv = sorted(set(vals))
@@ -128,7 +128,7 @@ def families(case):
 def nontrivial(case):
     fams = families(case)
     for f, (effects, has_int) in fams.items():
-        if len(f) > 1 or f[0] not in ("g", "s"):
+        if len(f) > 1 or f[0] not in ("g", "s", "k"):
             return True
         if any(len(t) > 1 for t in effects):
             return True
@@ -307,6 +307,12 @@ def _small_cases():
                             tt = ("var", a) if tt is None else (":", tt, ("var", a))
                         e = tt if e is None else ("+", e, tt)
                     yield {"items": [["+", designs._listify(("grp", lead, e, g))]], "response": "y", "factorial": fac}
+            # the same effects distributed over two factors of which only one has a group intercept of its own
+            for which in ("g", "s"):
+                yield {"items": [["+", designs._listify(("grp", "0", e, ("+", ("var", "g"), ("var", "s"))))],
+                                 ["+", designs._listify(("grp", "1", None, ("var", which)))]], "response": "y", "factorial": fac}
+                yield {"items": [["+", designs._listify(("grp", "1", None, ("var", which)))],
+                                 ["+", designs._listify(("grp", "0", e, ("+", ("var", "s"), ("var", "g"))))]], "response": "y", "factorial": fac}
 
 
 def _small_worker(ctx, arg):
